@@ -6,7 +6,7 @@
 (***************************************************************************)
 EXTENDS HpoCombine, TLC, Json
 
-CONSTANTS Shapes, Vals
+CONSTANTS Shapes, Vals, RandomBig      \* RandomBig: number of random large matrices per big shape (0 = none)
 
 VARIABLE m
 
@@ -15,7 +15,11 @@ Matrices == UNION {[1..s[1] -> [1..s[2] -> Vals]] : s \in Shapes}
 SmallShapes == (1..3) \X (1..3)
 WideShapes == {<<1, 5>>, <<5, 2>>, <<4, 3>>, <<2, 4>>, <<6, 1>>}
 
-Init == m \in Matrices \cup {<<>>}
+(* large matrices (more rows/columns than the inline capacity of the crate's small vectors),  *)
+(* with pseudo-random entries drawn by TLC                                                       *)
+BigShapes == {<<12, 7>>, <<7, 12>>, <<31, 2>>, <<1, 40>>, <<33, 33>>}
+
+Init == m \in Matrices \cup {<<>>} \cup (IF RandomBig > 0 THEN {x[1] : x \in {<<[i \in 1..s[1][1] |-> [j \in 1..s[1][2] |-> RandomElement(0..9)]], s>> : s \in BigShapes \X (1..RandomBig)}} ELSE {})
 Next == UNCHANGED m
 Spec == Init /\ [][Next]_m
 
